@@ -15,25 +15,41 @@ func init() { register("C11", checkC11) }
 
 // outermost lexical parent
 func outermost(fn *ssa.Function) *ssa.Function {
-	for fn.Parent() != nil {
-		fn = fn.Parent()
+	for i := 0; enclosingFn(fn) != nil && i < 24; i++ {
+		fn = enclosingFn(fn)
 	}
 	return fn
 }
 
 type apiRoot struct {
+	t        *thrModel
 	fn       *ssa.Function
-	result   *ssa.Alloc // cell holding the result channel
+	result   ssa.Value // identity of the result channel (chanID: the cell of the variable, or the make(chan) a session field holds)
 	mk       *ssa.MakeChan
 	sel      *ssa.Select
 	ctxParam ssa.Value
+}
+
+// partOfLiteral: fn is a literal, or (through transparent helpers) part of the body of one.
+func partOfLiteral(fn *ssa.Function) bool {
+	for i := 0; fn != nil && i < 16; i++ {
+		if fn.Parent() != nil || methodLiteral[fn] != nil {
+			return true
+		}
+		c := helperCall(fn)
+		if c == nil {
+			return false
+		}
+		fn = c.Parent()
+	}
+	return false
 }
 
 // findAPIRoots: functions of threshold that allocate a buffered result channel and select on it.
 func (t *thrModel) findAPIRoots() []*apiRoot {
 	var out []*apiRoot
 	for _, fn := range t.fns {
-		if fn.Parent() != nil {
+		if partOfLiteral(fn) {
 			continue
 		}
 		var sel *ssa.Select
@@ -51,23 +67,22 @@ func (t *thrModel) findAPIRoots() []*apiRoot {
 			if st.Dir != types.RecvOnly {
 				continue
 			}
-			ld, ok := strip(st.Chan).(*ssa.UnOp)
-			if !ok {
+			id := t.chanID(st.Chan)
+			var mk *ssa.MakeChan
+			switch x := id.(type) {
+			case *ssa.Alloc:
+				sts := storesToCell(x)
+				if len(sts) != 1 {
+					continue
+				}
+				mk, _ = strip(sts[0].Val).(*ssa.MakeChan)
+			case *ssa.MakeChan:
+				mk = x
+			}
+			if mk == nil {
 				continue
 			}
-			cell := cellOf(ld.X)
-			if cell == nil {
-				continue
-			}
-			sts := storesToCell(cell)
-			if len(sts) != 1 {
-				continue
-			}
-			mk, ok := strip(sts[0].Val).(*ssa.MakeChan)
-			if !ok {
-				continue
-			}
-			out = append(out, &apiRoot{fn: fn, result: cell, mk: mk, sel: sel})
+			out = append(out, &apiRoot{t: t, fn: fn, result: id, mk: mk, sel: sel})
 		}
 	}
 	return out
@@ -78,13 +93,13 @@ func (r *apiRoot) isSendOnResult(in ssa.Instruction) bool {
 	if !ok {
 		return false
 	}
-	ld, ok := strip(snd.Chan).(*ssa.UnOp)
-	return ok && cellOf(ld.X) == r.result
+	return r.t.chanID(snd.Chan) == r.result
 }
 
 // allPathsSend: every path from fn's entry to a return sends on the result channel
 // (skip decides exempt edges).
 func (r *apiRoot) allPathsSend(fn *ssa.Function, skip func(*ssa.BasicBlock, int) bool) []*ssa.BasicBlock {
+	fn = litBody(fn) // a method value standing for a literal: the method's body
 	if len(fn.Blocks) == 0 || len(fn.Blocks[0].Instrs) == 0 {
 		return nil
 	}
@@ -92,7 +107,7 @@ func (r *apiRoot) allPathsSend(fn *ssa.Function, skip func(*ssa.BasicBlock, int)
 	if r.isSendOnResult(first) {
 		return nil
 	}
-	return pathToReturnAvoiding(first, r.isSendOnResult, skip)
+	return pathToReturnAvoiding(first, withCallees(r.isSendOnResult, 0), skip)
 }
 
 func checkC11(c *Ctx) {
@@ -184,7 +199,7 @@ func checkC11(c *Ctx) {
 			}
 			var conts []contInfo
 			for f, ci := range t.conts {
-				if outermost(f) == r.fn {
+				if outermost(f) == outermost(r.fn) {
 					conts = append(conts, contInfo{f, ci})
 				}
 			}
@@ -192,12 +207,12 @@ func checkC11(c *Ctx) {
 			n1 := 0
 			for _, ci := range conts {
 				// nested (second level) continuations are judged through their parent
-				if _, nested := t.conts[ci.invoke.Parent()]; nested && !isGoInstr(ci.invoke) {
+				if _, nested := t.contCall(ci.invoke.Parent()); nested && !isGoInstr(ci.invoke) {
 					continue
 				}
 				if isGoInstr(ci.invoke) {
 					// `go X.Synchronize(ctx, cont)` inside a continuation: cont need not report (the enclosing continuation waits for it)
-					if _, inner := t.conts[ci.invoke.Parent()]; inner {
+					if _, inner := t.contCall(ci.invoke.Parent()); inner {
 						continue
 					}
 				}
@@ -221,7 +236,7 @@ func checkC11(c *Ctx) {
 						f := factOf(Guard{iff, s == 0})
 						return f.Op == token.EQL && isNilConst(f.Y) && errValueOf(f.X) == ssa.Value(cl)
 					}
-					p2 := pathToReturnAvoiding(cl, r.isSendOnResult, nilS)
+					p2 := pathToReturnAvoiding(cl, withCallees(r.isSendOnResult, 0), nilS) // (a reporting helper counts: `r.fail(err)`)
 					c.Check(p2 == nil, O1, FuncName(g), "failure of the first-level Synchronize is reported", m.Pos(cl.Pos()), "err != nil arm sends on the result channel", "when the first synchronisation fails the API call is not told")
 				}
 			}
@@ -310,23 +325,28 @@ func syncErrEdgeSkipper(sl *Slicer, fn *ssa.Function) func(b *ssa.BasicBlock, su
 		succ int
 	}
 	skip := map[edge]bool{}
-	for _, in := range instrsOf(fn) {
-		cl, ok := in.(*ssa.Call)
-		if !ok || !invokesMethod(&cl.Call, "Synchronize") {
-			continue
-		}
-		for _, b := range fn.Blocks {
-			iff, ok := b.Instrs[len(b.Instrs)-1].(*ssa.If)
-			if !ok {
+	for _, g := range deepFuncs(fn) { // the function with the helpers inlined into it
+		for _, in := range instrsOf(g) {
+			cl, ok := in.(*ssa.Call)
+			if !ok || !invokesMethod(&cl.Call, "Synchronize") {
 				continue
 			}
-			f := factOf(Guard{iff, true})
-			if (f.Op == token.NEQ || f.Op == token.EQL) && isNilConst(f.Y) && errValueOf(f.X) == ssa.Value(cl) {
-				errSucc := 0
-				if f.Op == token.EQL {
-					errSucc = 1
+			for _, b := range g.Blocks {
+				if len(b.Instrs) == 0 {
+					continue
 				}
-				skip[edge{b, errSucc}] = true
+				iff, ok := b.Instrs[len(b.Instrs)-1].(*ssa.If)
+				if !ok {
+					continue
+				}
+				f := factOf(Guard{iff, true})
+				if (f.Op == token.NEQ || f.Op == token.EQL) && isNilConst(f.Y) && errValueOf(f.X) == ssa.Value(cl) {
+					errSucc := 0
+					if f.Op == token.EQL {
+						errSucc = 1
+					}
+					skip[edge{b, errSucc}] = true
+				}
 			}
 		}
 	}
@@ -570,13 +590,7 @@ func auditPanics(c *Ctx, rule string, m *Module, pkg string, entries []*ssa.Func
 	for _, p := range found {
 		fn := FuncName(p.Parent())
 		txt := panicText(p)
-		reason := ""
-		for _, r := range panicReasons {
-			if panicFnMatches(p.Parent(), r.fnSuffix) && strings.HasPrefix(txt, r.text) {
-				reason = r.reason
-				break
-			}
-		}
+		reason, _ := panicReasonFor(p.Parent(), txt, m.PkgFuncs(pkg), 0)
 		c.Check(reason != "", rule, fn, "panic "+txt, m.Pos(p.Pos()), reason,
 			"an explicit panic is reachable from KeyGen/Sign and has no recorded reason why it cannot be triggered by a timeout, a vanished peer or a failed local precondition")
 	}
@@ -611,20 +625,11 @@ func panicFnMatches(fn *ssa.Function, suffix string) bool {
 	if i := strings.Index(base, "$"); i >= 0 {
 		base = base[:i]
 	}
-	for f := fn; f != nil; {
+	for f, i := fn, 0; f != nil && i < 32; f, i = enclosingFn(f), i+1 {
 		name := nameBack(FuncName(f))
 		if strings.HasSuffix(name, suffix) || strings.HasSuffix(name, base) {
 			return true
 		}
-		if f.Parent() != nil {
-			f = f.Parent()
-			continue
-		}
-		if c := helperCall(f); c != nil {
-			f = c.Parent()
-			continue
-		}
-		break
 	}
 	return false
 }
@@ -659,4 +664,40 @@ func reasonFnGone(suffix string) bool {
 		}
 	}
 	return !reasonFnExists[key]
+}
+
+// panicReasonFor: the recorded reason for a panic with this text in fn — by the function it belongs to
+// (panicFnMatches) or, when it sits in an unexported helper shared by a few callers (a lookup-or-panic
+// accessor), by a reason recorded with the same text for the code of EVERY caller.
+func panicReasonFor(fn *ssa.Function, txt string, fns []*ssa.Function, depth int) (string, bool) {
+	for _, r := range panicReasons {
+		if panicFnMatches(fn, r.fnSuffix) && strings.HasPrefix(txt, r.text) {
+			return r.reason, true
+		}
+	}
+	if depth > 2 {
+		return "", false
+	}
+	last := fn
+	for f, i := fn, 0; f != nil && i < 32; f, i = enclosingFn(f), i+1 {
+		last = f
+	}
+	if last.Object() == nil || last.Object().Exported() {
+		return "", false
+	}
+	cs := staticCallsTo(fns, last)
+	if len(cs) < 2 || len(cs) > 4 {
+		return "", false
+	}
+	reason := ""
+	for _, c := range cs {
+		r, ok := panicReasonFor(c.Parent(), txt, fns, depth+1)
+		if !ok {
+			return "", false
+		}
+		if reason == "" {
+			reason = r
+		}
+	}
+	return reason + " (recorded for each of the helper's callers)", true
 }
